@@ -325,6 +325,15 @@ def validator_facts(repo):
             if set(kws) - {'update', 'normalize'}:
                 raise TranslationError("F6", fn.name, "unexpected keyword in child call")
             fwd.append((demangle(fn.name), 'update' in kws))
+    # the child factory: same class, the instance's whole configuration, explicit keywords override
+    gc = ast.unparse(find_func(bv, '_get_child_validator'))
+    for needle in ("child_config = self._config.copy()", "child_config.update(kwargs)", "child_validator = self.__class__(**child_config)",
+                   "if not self.is_child:", "child_config['root_document'] = self.document"):
+        if needle not in gc:
+            raise TranslationError("F6", "_get_child_validator", "factory shape changed: missing `%s`" % needle)
+    rh = ast.unparse(find_func(bv, '__get_rule_handler'))
+    if "result = getattr(self, methodname, None)" not in rh:
+        raise TranslationError("F6", "__get_rule_handler", "handlers are no longer looked up by name on the instance")
     F['sp_drops'] = sp_drops
     F['forwards_update'] = fwd
 
